@@ -123,24 +123,30 @@ def apply_faults(text, faults):
         elif k == 'rmattr':
             el.attrib.pop(f['attr'], None)
         elif k == 'dangling':
+            # (a fault that no longer applies because an earlier fault of the same list removed
+            # its site is a no-op)
             if f.get('attr'):
                 v = el.get(f['attr'])
-                el.set(f['attr'], ('#' if v.startswith('#') else '') + 'nosuch-zz')
+                if v is not None:
+                    el.set(f['attr'], ('#' if v.startswith('#') else '') + 'nosuch-zz')
             else:
-                toks = el.text.split()
-                toks[f['tok']] = 'nosuch-zz'
-                el.text = ' '.join(toks)
+                toks = (el.text or '').split()
+                if f['tok'] < len(toks):
+                    toks[f['tok']] = 'nosuch-zz'
+                    el.text = ' '.join(toks)
         elif k == 'nohash':
             v = el.get(f['attr'])
             if v is not None and v.startswith('#'):
                 el.set(f['attr'], v[1:])
         elif k == 'nonnum':
             if f.get('attr'):
-                el.set(f['attr'], 'x1y')
+                if el.get(f['attr']) is not None:
+                    el.set(f['attr'], 'x1y')
             else:
-                toks = el.text.split()
-                toks[f['tok']] = 'x1y'
-                el.text = ' '.join(toks)
+                toks = (el.text or '').split()
+                if f['tok'] < len(toks):
+                    toks[f['tok']] = 'x1y'
+                    el.text = ' '.join(toks)
         elif k == 'emptytext':
             el.text = ''
         else:
